@@ -40,28 +40,39 @@ def run(rep, tier):
         raise AnalysisBroken("CheckpointFile(string, access) constructor not found")
     ctor = ctor[0]
     rep.analysed(ctor)
-    sw = [n for n in ctor.walk() if n.get("k") == "switch"]
-    table = {}
-    if len(sw) == 1:
-        label = None
-        for st in sw[0]["body"]["stmts"]:
-            while st.get("k") in ("case", "default"):
-                label = (st.get("enumerator") or "default").split("::")[-1]
-                st = st["sub"]
-            flags = []
-            for x in walk(st):
-                if x.get("k") == "construct" and "H5File" in (x.get("type") or "") and len(x.get("args", [])) >= 2:
-                    conds = [nows(show(a["cond"])) + ("" if any(y.get("id") == x["id"] for y in walk(a["then"])) else "[else]") for a in ctor.ancestors(x) if a.get("k") == "if"]
-                    flags.append((conds[0] if conds else "", flag_name(x["args"][1])))
-            if flags and label:
-                table.setdefault(label, []).extend(flags)
-    want = {"READ": [("", "H5F_ACC_RDONLY")], "CREATE": [("", "H5F_ACC_TRUNC")],
-            "MODIFY": [("!FileExists(fileName_)", "H5F_ACC_TRUNC"), ("!FileExists(fileName_)[else]", "H5F_ACC_RDWR")]}
+    # the constructor folded with the access level bound to each enumerator (and the file existing or not): which HDF5 open mode is used
+    from vsa.alg import ENUM_SYMS, S, F as Fn
+    from vsa.cases import executes, decide, resolve_ite
     e = F.enums.get(X + "CheckpointAccessLevel")
     names = {x[0] for x in e["enumerators"]} if e else set()
-    table = {k: sorted(v) for k, v in table.items()}
-    want = {k: sorted(v) for k, v in want.items()}
-    rep.check(table == want and names == set(want), "R17.1", "access-table", "READ/CREATE/MODIFY -> RDONLY/TRUNC/(TRUNC|RDWR)", "CheckpointFile opens files with %s (enumerators %s)" % (table, sorted(names)), ctor.loc(), sample=True)
+    want = {("READ", True): "H5F_ACC_RDONLY", ("READ", False): "H5F_ACC_RDONLY", ("CREATE", True): "H5F_ACC_TRUNC", ("CREATE", False): "H5F_ACC_TRUNC",
+            ("MODIFY", True): "H5F_ACC_RDWR", ("MODIFY", False): "H5F_ACC_TRUNC"}
+    table = {}
+
+    def ex_oracle(lf):
+        if str(getattr(lf, "func", "")) == "FileExists":
+            return ("EXISTS", True)
+        return None
+    for lvl in sorted(names):
+        sym = S(X + "CheckpointAccessLevel::" + lvl)
+        ENUM_SYMS.add(sym)
+        fo_ = Fold(ctor).run({("field", "accessLevel_"): sym})
+        cds = getattr(fo_, "conds", {})
+        for exists in (True, False):
+            A = {"EXISTS": exists}
+            live = [e_ for e_ in fo_.events if e_["kind"] == "store" and e_["target"].replace(" ", "") == "fileHandle_" and executes(e_, None, A, ex_oracle, cds)]
+            if len(live) != 1:
+                table[(lvl, exists)] = "%d opens" % len(live)
+                continue
+            v_ = live[0]["value"]
+            args_ = list(getattr(v_, "args", ()))
+            flag = args_[1] if len(args_) >= 2 else None
+            if flag is not None and hasattr(flag, "args"):
+                flag = resolve_ite(flag, lambda cs: decide(cds[cs], None, A, ex_oracle, cds) if cs in cds else None)
+            # the HDF5 macros may already be folded to their values (hdf5's H5Fpublic.h: RDONLY 0x0, RDWR 0x1, TRUNC 0x2)
+            table[(lvl, exists)] = {"0": "H5F_ACC_RDONLY", "1": "H5F_ACC_RDWR", "2": "H5F_ACC_TRUNC"}.get(str(flag), str(flag))
+    rep.check(table == want and names == {"READ", "CREATE", "MODIFY"}, "R17.1", "access-table", "READ/CREATE/MODIFY -> RDONLY/TRUNC/(RDWR if the file exists else TRUNC)",
+              "CheckpointFile opens files with %s (enumerators %s)" % ({"%s/%s" % (k[0], "exists" if k[1] else "absent"): v for k, v in table.items() if want.get(k) != v}, sorted(names)), ctor.loc(), sample=True)
     # WHO + PATH: every place that constructs a CheckpointWriter from a group (in any function of the unit, not only getWriter(path)) is reachable
     # only over the false edge of the accessLevel_ == READ test of its function; handing out a writer otherwise goes through such a function
     sites = []
